@@ -19,6 +19,7 @@ def main():
         doc = canonicalize_generics(doc)
         out['hpke'] = sorted(b['key'] for b in doc['bodies'])
         out['hpke:sigs'] = {b['key']: b.get('sig') for b in doc['bodies'] if b.get('kind') in ('Fn', 'AssocFn') and not b.get('exported')}
+        out['hpke:adts'] = {a['path']: [[f['name'], f['ty'], f.get('vis')] for v in a['variants'] for f in v['fields']] for a in doc['adts'] if a.get('kind') == 'Struct'}
         out['commit'] = subprocess.check_output(['git', '-C', '/repo', 'rev-parse', commit], text=True).strip()
         with open(os.path.join(HERE, 'fixtures', 'pinned_bodies.json'), 'w') as f:
             json.dump(out, f, indent=0, sort_keys=True)
